@@ -250,6 +250,12 @@ def obs_seqsdata(sd):
     return dict(cls="SeqsData", names=list(sd.names), seqs={n: sd.get_seq_str(seqid=n) for n in sd.names}, alphabet=list(sd.alphabet), reversed=canon(dict(sd.reversed)) if hasattr(sd, "reversed") else None)
 
 
+def _strip_internal_labels(nw):
+    import re
+
+    return re.sub(r"\)(?:'[^']*'|[^:,;()']+)", ")", nw)
+
+
 def _node_obs(e):
     return dict(
         name=None if e.name is None else str(e.name),
@@ -277,7 +283,9 @@ def obs_tree(t):
         tip=tips,
         shape=shape(t),
         tip_names=[str(n) for n in t.get_tip_names()],
-        newick=_try(lambda: t.get_newick(with_distances=True)),
+        # get_newick(with_distances=True) with the labels of INTERNAL nodes removed: after a round trip the auto-generated
+        # names ('edge.0') count as loaded and would be printed; every name is compared in newick_named / per node
+        newick=_try(lambda: _strip_internal_labels(t.get_newick(with_distances=True))),
         newick_named=_try(lambda: t.get_newick(with_distances=True, with_node_names=True)),
     )
     if all(e.length is not None for e in t.get_edge_vector(include_root=False)) and len(tips) > 1:
